@@ -4,7 +4,7 @@ import json, os, re, shutil, sys
 
 pid = sys.argv[1]
 name = sys.argv[2] if len(sys.argv) > 2 and not sys.argv[2].startswith("--") else pid
-out = f"/tmp/seed/{pid}-out"
+out = os.environ.get("SEED_DIR", "/tmp/seed") + f"/{pid}-out"
 dst = f"/verif/seeded/{name}"
 os.makedirs(dst, exist_ok=True)
 shutil.copy(f"{out}/patch.diff", f"{dst}/patch.diff")
